@@ -77,7 +77,7 @@ def run(ctx):
     rnd = ctx.rnd
     ctx.rule = ("exhaustive one-cell-at-a-time: every cell of every row of four base CIDs (all formats, all 8 field types, both checks, all properties) replaced in "
                 "turn by each of %d hostile values; the same pool in every cell of a valid data row (yield mode and validate); pairs of hostile cells in the thorough "
-                "tier; the same pool in every cell of a fixed-width record (all field types); DistinctCount rules whose evaluation fails only for particular counts x 0-4 distinct values x 3 APIs; date-formatted Excel cells xlrd refuses; xlsx and ods archives damaged at byte level (flip / zero / cut / delete / duplicate at seeded offsets); text containers (delimited and fixed-width files) with undecodable bytes / unterminated quote / short record / NUL / wrong delimiter; the command line on the hostile CIDs; observable: class of "
+                "tier; the same pool in every cell of a fixed-width record (all field types); DistinctCount rules whose evaluation fails only for particular counts x 0-4 distinct values x 5 APIs (validate, rows, Reader closed once / twice, Writer closed twice); date-formatted Excel cells xlrd refuses; xlsx and ods archives damaged at byte level (flip / zero / cut / delete / duplicate at seeded offsets); text containers (delimited and fixed-width files) with undecodable bytes / unterminated quote / short record / NUL / wrong delimiter; the command line on the hostile CIDs; observable: class of "
                 "whatever escapes; distinct = distinct (CID or data, position, value); non-trivial = every case" % len(HOSTILE))
     ctx.exhaustive = True
     ctx.level = "fault_enumeration"
@@ -160,7 +160,8 @@ def run(ctx):
     for expr in END_EXPRESSIONS:
         try:
             end_cid = interface.Cid()
-            end_cid.read("c10-end", [["D", "Format", "Delimited"], ["F", "v", "", "", "", "Text", ""], ["C", "end", "DistinctCount", "v " + expr]])
+            end_cid.read("c10-end", [["D", "Format", "Delimited"], ["F", "v", "", "", "", "Text", ""], ["C", "uniq", "IsUnique", "v"],
+                                     ["C", "end", "DistinctCount", "v " + expr]])
         except (errors.InterfaceError, errors.DataError):
             ctx.count(key=("end", expr, "declare"), branch="end:declare:iface")
             continue
@@ -168,17 +169,38 @@ def run(ctx):
             ctx.violation("C10:end-expression:declare:%s" % core.classify_exception(error), "DistinctCount rule %r makes Cid.read raise %s" % ("v " + expr, core.classify_exception(error)), {"rule": "v " + expr})
             continue
         for distinct in range(0, 5):
-            text = "".join("x%d\n" % (k % distinct) for k in range(distinct + 2)) if distinct else ""
-            for api in ("validate", "rows", "reader-close"):
+            text = "".join("x%d\n" % k for k in range(distinct))
+            for api in ("validate", "rows", "reader-close", "reader-close-twice", "writer-close-twice"):
                 try:
                     if api == "validate":
                         validio.validate(end_cid, io.StringIO(text, newline=""))
                     elif api == "rows":
                         list(validio.rows(end_cid, io.StringIO(text, newline=""), on_error="yield"))
-                    else:
+                    elif api == "reader-close":
                         reader = validio.Reader(end_cid, io.StringIO(text, newline=""), on_error="continue")
                         list(reader.rows())
                         reader.close()
+                    elif api == "reader-close-twice":
+                        # close() inside the with block and again when the block is left; a failing end check fails each time
+                        with validio.Reader(end_cid, io.StringIO(text, newline=""), on_error="continue") as reader:
+                            list(reader.rows())
+                            try:
+                                reader.close()
+                            except errors.CutplaceError:
+                                pass
+                            try:
+                                reader.close()
+                            except errors.CutplaceError:
+                                pass
+                    else:
+                        writer = validio.Writer(end_cid, io.StringIO())
+                        for cell in text.split("\n")[:-1]:
+                            writer.write_row([cell])
+                        for _ in range(2):
+                            try:
+                                writer.close()
+                            except errors.CutplaceError:
+                                pass
                     tag = "ok"
                 except Exception as error:  # noqa
                     tag = core.classify_exception(error)
@@ -260,6 +282,7 @@ def run(ctx):
         # byte-level damage
         xpath = os.path.join(tmp, "good.xlsx")
         wb = xlsxwriter.Workbook(xpath)
+        wb.set_properties({"created": datetime.datetime(2020, 1, 1)})   # the same bytes in every run
         ws = wb.add_worksheet()
         for r_ in range(4):
             ws.write_string(r_, 0, "text%d" % r_)
